@@ -96,7 +96,9 @@ class CharacterClass(MutableSet[int]):
     :param xsd_version: the reference XSD version for syntax variants. Defaults to '1.0'.
     TODO: implement __ior__, __iand__, __ixor__ operators for a full mutable set class.
     """
-    _re_char_set = re.compile(r'(?<!.-)(\\[nrt|.\-^?*+{}()\]sSdDiIcCwW]|\\[pP]{[a-zA-Z\-0-9]+})')
+    _re_char_set = re.compile(
+        r'(?<![^\\]-)(\\[nrt|.\-^?*+{}()\]sSdDiIcCwW]|\\[pP]{[a-zA-Z\-0-9]+})'
+    )  # an escape is not split after a range hyphen, but it is after an escaped hyphen '\-'
     _re_unicode_ref = re.compile(r'\\([pP]){([\w-]+)}')
 
     __slots__ = 'xsd_version', 'positive', 'negative'
